@@ -367,3 +367,43 @@ def resolve_kinds(gram, kind, methods):
         if pt:
             return pt
     return {kind}
+
+
+# --------------------------------------------------------------------------- parser state discipline
+
+def fresh_parser_rule(rep, rid, mod, transformer_cls):
+    """Every parse() call must work on state created in that call: the transformer instance (which accumulates the
+    result) is constructed inside parse() on the way to `.parse(text)`, unconditionally, and no function of the module
+    keeps module-level state (`global`)."""
+    rep.rule(rid, 'parse() constructs its transformer (the object that accumulates the result) inside the call, unconditionally; '
+                  'no function of the parser module rebinds module-level state (no `global`): results of different calls share nothing')
+    f = mod.func('parse')
+    ctor = [c for c in find_all(f, ast.Call) if call_name(c) == transformer_cls]
+    parse_calls = [c for c in find_all(f, ast.Call) if isinstance(c.func, ast.Attribute) and c.func.attr == 'parse']
+    ok = len(ctor) >= 1 and len(parse_calls) == 1
+    cond = False
+    if ok:
+        # the constructor call must not sit under a condition / loop inside parse, and must feed the Lark(...) whose .parse is returned
+        for c in ctor:
+            for p in parents(c):
+                if isinstance(p, (ast.If, ast.IfExp, ast.For, ast.While, ast.Try, ast.BoolOp)):
+                    cond = True
+        recv = parse_calls[0].func.value
+        reach = any(n is c for c in ctor for n in ast.walk(recv))
+        if not reach and isinstance(recv, ast.Name):
+            defs = [st for st in find_all(f, ast.Assign) if len(st.targets) == 1 and is_name(st.targets[0], recv.id)]
+            reach = len(defs) == 1 and any(n is c for c in ctor for n in ast.walk(defs[0].value))
+        ok = reach and not cond
+    rep.ob(rid, f'{mod.name}.parse builds {transformer_cls}() per call', ok)
+    if not ok:
+        rep.violate(rid, mod, f, f'{transformer_cls}(...) in parse()', f'{mod.name}.parse must create a new {transformer_cls} for every call and parse with it '
+                    f'(a transformer kept across calls hands the same, still growing result object to every caller)', node=f)
+    gl = [n for fn in mod.funcs.values() for n in find_all(fn, (ast.Global, ast.Nonlocal))]
+    rep.ob(rid, f'{mod.name}: no global/nonlocal statement', not gl)
+    for g in gl:
+        rep.violate(rid, mod, g, norm(g), f'{mod.name}: `{norm(g)}` keeps state across calls in a parser module', node=g)
+    # mutable default arguments that are mutated are the same kind of hidden state
+    for q, fn in mod.funcs.items():
+        for d in fn.args.defaults + [x for x in fn.args.kw_defaults if x is not None]:
+            if isinstance(d, (ast.List, ast.Dict, ast.Set)) or (isinstance(d, ast.Call) and call_name(d) in ('list', 'dict', 'set', 'defaultdict')):
+                rep.violate(rid, mod, fn, norm(d), f'{mod.name}.{q}: mutable default argument {norm(d)} is shared by all calls', node=fn)
